@@ -1,6 +1,6 @@
 import IncrVerif.Proofs.LeakF3
 /-!
-# LeakF4 — `Sim` (the engine neither reads nor writes the program's node handles), port of `Proofs/NecRel4.lean`
+# LeakF4 — `Sim` (a run that returns leaves `State.handles` unchanged) through the engine, port of `Proofs/NecRel4.lean`
 -/
 namespace IncrVerif.Proofs.LeakF
 open IncrVerif.Engine IncrVerif.Proofs
